@@ -229,13 +229,15 @@ func shrink(h *history, f failure, budget int) (*history, failure) {
 	return cur, curF
 }
 
+// classes already reported in this run: c.Violation keeps one replay per class, later ones are not shrunk again
+var reported = map[string]bool{}
+
 func report(c *core.Ctx, h *history, fs []failure) {
-	seen := map[string]bool{}
 	for _, f := range fs {
-		if seen[f.Class] {
+		if reported[f.Class] {
 			continue
 		}
-		seen[f.Class] = true
+		reported[f.Class] = true
 		min, mf := shrink(h, f, 40)
 		c.Violation(mf.Class, fmt.Sprintf("%s [history of %d calls on the shared %s codec value, failing call #%d]", mf.What, len(min.Ops), min.Codec, mf.Op), min)
 	}
@@ -294,11 +296,15 @@ func runC20(c *core.Ctx) {
 			hs = append(hs, h)
 		}
 	}
-	// streams whose header announces a large decoded size (kept apart: class alloc-declared-size-*)
+	// streams whose header announces a large decoded size.  Within the format's own limit (snappy < 4 GiB,
+	// zstd <= MaxInt32) the codec may allocate it and must return an error (recorded as a note); beyond it
+	// the stream must be refused without allocating (zstd: 60 GiB declared by 17 bytes)
 	for _, name := range []string{"zstd", "snappy", "lz4", "gzip", "brotli"} {
 		h := &history{Codec: name}
-		for _, mib := range []int{256, 1024} {
+		for _, mib := range []int{256, 61440} {
 			h.Ops = append(h.Ops, op{Kind: "bad", Bad: corruptSpec{Mode: "zstdfcs", Len: mib}, DecDst: dstSpec{Mode: "nil"}})
+		}
+		for _, mib := range []int{128, 1024} {
 			h.Ops = append(h.Ops, op{Kind: "bad", Bad: corruptSpec{Mode: "snappylen", Len: mib}, DecDst: dstSpec{Mode: "nil"}})
 		}
 		h.Ops = append(h.Ops, op{Kind: "rt", In: inputSpec{Gen: "text", Size: 1000, Seed: 1}, EncDst: dstSpec{Mode: "nil"}, DecDst: dstSpec{Mode: "nil"}})
@@ -324,7 +330,7 @@ func runC20(c *core.Ctx) {
 	}
 	wg.Wait()
 	var maxAlloc uint64
-	errs, accepted := 0, 0
+	errs, accepted, declared := 0, 0, 0
 	for i, h := range hs {
 		if r := results[i].res; r != nil {
 			if r.MaxAlloc > maxAlloc {
@@ -332,6 +338,7 @@ func runC20(c *core.Ctx) {
 			}
 			errs += r.Errors
 			accepted += r.Accepted
+			declared += r.Declared
 		}
 		record(c, h, results[i].res)
 		if len(results[i].fs) > 0 {
@@ -341,7 +348,8 @@ func runC20(c *core.Ctx) {
 			c.Sample(map[string]any{"codec": h.Codec, "first_calls": h.Ops[:3]})
 		}
 	}
-	c.Note("real codecs: %d histories in child processes (RLIMIT_AS 4 GiB, watchdog 3 GiB / %d s per call); failing decodes: %d returned an error, %d were accepted identically by the shared and the fresh instance; largest allocation volume of one failing Decode: %d MiB", len(hs), childOpSeconds, errs, accepted, maxAlloc>>20)
+	c.Note("real codecs: %d histories in child processes (RLIMIT_AS 6 GiB, watchdog 5 GiB / %d s per call); failing decodes: %d returned an error, %d were accepted identically by the shared and the fresh instance", len(hs), childOpSeconds, errs, accepted)
+	c.Note("allocation on failing inputs: %d failing Decode calls allocated the decoded size announced by their header (snappy preamble < 4 GiB, zstd frame content size <= MaxInt32: bounded by the format, an error is returned, not a violation); largest allocation volume of one failing Decode: %d MiB; everything else stayed below 64 MiB + 1100 x input", declared, maxAlloc>>20)
 
 	fileRoundTrips(c)
 }
